@@ -14,7 +14,7 @@ import (
 )
 
 func init() {
-	props["C19"] = &propDef{extraPkgs: []string{jsonPatchPkg}, run: runC19, explanation: "Partial (panics raised by constructs in the module's own code and by the reviewed preconditions of third-party callees; not termination, stack depth or arbitrary third-party internals). Decided statically: a closed inventory of every panic-capable construct in the module functions reachable from the untrusted entry points — unchecked type assertions, dereferences (field access, load, pointer-receiver call, pass to a dereferencing callee) of pointers that JSON decoding can leave nil, index / slice expressions, explicit panic, integer division, make with computed size, definite nil dereferences (value tested nil on the path and then used), and interface-keyed map accesses and interface comparisons with possibly unhashable values, and calls with panicking preconditions (ed25519 key sizes; json-patch v4.1.0 Apply, which must run under a deferred recover that becomes an error, receive one operation per call and be preceded by a copy-into-itself check, because the library copy aliases nodes) — each discharged by a dominating guard found by the must-pass-through engine (through helper boundaries) or by a reviewed one-line reason keyed by function and expression. Anything undischarged is a violation naming the construct. The copy-into-itself check reads array-index tokens with the strconv function(s) the library's array containers use."}
+	props["C19"] = &propDef{extraPkgs: []string{jsonPatchPkg}, run: runC19, explanation: "Partial (panics raised by constructs in the module's own code and by the reviewed preconditions of third-party callees; not termination, stack depth or arbitrary third-party internals). Decided statically: a closed inventory of every panic-capable construct in the module functions reachable from the untrusted entry points — unchecked type assertions, dereferences (field access, load, pointer-receiver call, pass to a dereferencing callee) of pointers that JSON decoding can leave nil, index / slice expressions, explicit panic, integer division, make with computed size, definite nil dereferences (value tested nil on the path and then used), and interface-keyed map accesses and interface comparisons with possibly unhashable values, and calls with panicking preconditions (ed25519 key sizes; json-patch v4.1.0 Apply, which must run under a deferred recover that becomes an error, receive one operation per call and be preceded by a copy-into-itself check, because the library copy aliases nodes) — each discharged by a dominating guard found by the must-pass-through engine (through helper boundaries) or by a reviewed one-line reason keyed by function and expression. Anything undischarged is a violation naming the construct. The copy-into-itself check reads array-index tokens with the strconv function(s) the library's array containers use. The canonicalizer's table rules (C05) run inside this check; reviewed entries are keyed by the enclosing named function and the expression, with the dominating conditions they need."}
 }
 
 // reviewedPanicSites: function (short name) -> expression (canonical path / description) -> reason.
